@@ -145,7 +145,11 @@ def gen_cases(c):
             continue
         delim, cr = (10, True) if rng.random() < 0.8 else (rng.choice((10, 13)), rng.random() < 0.5)
         api = rng.choice((0, 1, 2)) if cr else rng.choice((0, 1))
-        add(page, "M %d %d %d %d %d %s %d -" % (page, minb, delim, 1 if cr else 0, api, hx(src), off), "M", src[off:], delim, cr, "mmap-emulated/random")
+        if rng.random() < 0.2:
+            sc = ",".join(rng.choice(("S1", "S2", "E", "F", "S%d" % cap)) for _ in range(rng.randrange(0, 8))) or "-"
+            add(page, "M %d %d %d %d %d %s %d %s F0" % (page, minb, delim, 1 if cr else 0, api, hx(src), off, sc), "M", src[off:], delim, cr, "mmap-emulated/first-mmap-fails")
+        else:
+            add(page, "M %d %d %d %d %d %s %d -" % (page, minb, delim, 1 if cr else 0, api, hx(src), off), "M", src[off:], delim, cr, "mmap-emulated/random")
     # 5. real page size: real mmap, files at sizes around page multiples, pipe with big windows
     P = os.sysconf("SC_PAGE_SIZE")
     sizes = [0, 1, P - 1, P, P + 1, 2 * P - 1, 2 * P, 2 * P + 1, 3 * P, 4 * P, 4 * P + 1, 5 * P - 1, 8 * P, 8 * P + 3]
@@ -168,6 +172,9 @@ def gen_cases(c):
                 if not no_magic(src[off:]) or not no_magic(src[off - off % P:]):
                     continue
                 add(P, "M %d 1 10 1 %d %s %d -" % (P, rng.choice((0, 1, 2)), hx(src), off), "M", src[off:], 10, True, "mmap-real/page-multiples")
+            for off in (1, 7, 5003, P - 1, P, P + 1, 0):
+                if variant < 2 and off <= total and no_magic(src[off:]):
+                    add(P, "M %d 1 10 1 %d %s %d %s F0" % (P, rng.choice((0, 1, 2)), hx(src), off, rng.choice(("-", "S1,S3", "E,S%d" % P))), "M", src[off:], 10, True, "mmap-real/first-mmap-fails")
             if no_magic(src):
                 script = ",".join(rng.choice(("S1", "S%d" % P, "S%d" % (P + 1), "E", "F", "S%d" % (2 * P), "S4095")) for _ in range(rng.randrange(0, 12))) or "-"
                 add(P, "R %d 1 10 1 %d %s %s" % (P, rng.choice((0, 1, 2)), hx(src), script), "R", src, 10, True, "read-real/page-multiples")
@@ -248,6 +255,10 @@ def compressed_cases(c, refill):
                 except ValueError:
                     continue
                 out.append(("gz+%s-member-ends-at-refill*%d%+d" % (name, j, delta), m1 + m2 + m3, d1 + d2 + d3, "-"))
+    # every xz preset (dictionary sizes 256 KiB ... 64 MiB: the decoder must accept them all)
+    for preset in list(range(10)) + [9 | lzma.PRESET_EXTREME]:
+        d = text_lines(rng, 1500, "xz%d" % (preset & 15))
+        out.append(("xz-preset-%d%s" % (preset & 15, "e" if preset > 9 else ""), lzma.compress(d, preset=preset), d, "-"))
     # first fragment shorter than the magic; also later short reads so that a follow-on member's header straddles reads
     for name, comp in sorted(codecs.items()):
         for k in (1, 2, 3, 4, 5):
@@ -279,7 +290,7 @@ def compressed_level(c, impl, vfio):
     exe = repo_bin("remove_long_lines")
     for (name, blob, plain, sc), line, o in zip(cases, lines, outs):
         want = py_records(plain)
-        c.count(("Z", name), nontrivial=True, bucket="compressed-geometry/" + re.sub(r"\*\d+[+-]\d+|-\d+$", "", name))
+        c.count(("Z", name), nontrivial=True, bucket="compressed-geometry/" + re.sub(r"\*\d+[+-]\d+|-\d+e?$", "", name))
         if o is not None:
             got = parse_out(o)
             if got is None or got[0] != want or got[3] != "TT":
@@ -363,6 +374,34 @@ def compressed_level(c, impl, vfio):
                 off, name, st, len(out), len(wantb)),
                 {"tool": "remove_long_lines 1000000000", "case": name, "file_hex": blob.hex(), "offset": off, "status": st,
                  "how": "(dd bs=%d count=1 >/dev/null; remove_long_lines 1000000000) < file" % off})
+
+    # seekable files on which mmap fails (st_size 0: mmap of 0 bytes = EINVAL), descriptor already advanced
+    for pf in ("/proc/version", "/proc/filesystems"):
+        try:
+            with open(pf, "rb") as f:
+                content = f.read()
+        except OSError:
+            continue
+        for off in (0, 1, 3, 17):
+            if off > len(content) or not no_magic(content[off:]):
+                continue
+            fd = os.open(pf, os.O_RDONLY)
+            try:
+                os.lseek(fd, off, os.SEEK_SET)
+                try:
+                    pr = subprocess.run([exe, "1000000000"], stdin=fd, stdout=subprocess.PIPE, stderr=subprocess.PIPE, timeout=25)
+                    st, out = pr.returncode, pr.stdout
+                except subprocess.TimeoutExpired:
+                    st, out = "timeout", b""
+            finally:
+                os.close(fd)
+            wantb = b"".join(r + b"\n" for r in py_records(content[off:]))
+            c.count(("procfile", pf, off), nontrivial=True, bucket="compressed-geometry/tool-unmappable-file-at-offset")
+            if st != 0 or out != wantb:
+                c.violation("unmappable-file-records: remove_long_lines 1000000000 with stdin = %s positioned at offset %d: status %s, output %r..., expected %r..." % (
+                    pf, off, st, out[:40], wantb[:40]),
+                    {"tool": "remove_long_lines 1000000000", "file": pf, "offset": off, "status": st, "got_hex": out[:200].hex(), "want_hex": wantb[:200].hex(),
+                     "how": "(dd bs=%d count=1 >/dev/null; remove_long_lines 1000000000) < %s" % (max(off, 1), pf)})
 
 
 def tool_level(c, have_vfio):
@@ -520,7 +559,9 @@ def main(argv):
                         hit("ReadLine/record-longer-than-window")
                 if kind == "M":
                     ms = [tuple(int(v) for v in p.split(":")) for p in maps.split(",")] if maps else []
-                    if trace:
+                    if trace and len(t) == 10:
+                        hit("MMapShift/failing-mmap-falls-back-to-read")
+                    elif trace:
                         hit("MMapShift/empty-mapping-falls-back-to-read")
                     if any(sz > cap0 for _, sz in ms):
                         hit("MMapShift/window-doubled")
